@@ -124,3 +124,116 @@ func (m *Model) eventSites(f *ssa.Function, pred func(ssa.Instruction) bool, dep
 	})
 	return out
 }
+
+// anchorMonitorSet / anchorMonitorReset: the top-level functions of package monitor that store into the monitor global - Set
+// stores one of its parameters, Reset stores the nil constant. Falls back to the names.
+func (m *Model) anchorMonitorSet() *ssa.Function   { return m.monitorStorer(false, "Set") }
+func (m *Model) anchorMonitorReset() *ssa.Function { return m.monitorStorer(true, "Reset") }
+
+func (m *Model) monitorStorer(wantNil bool, fallback string) *ssa.Function {
+	g := m.monitorGlobal()
+	var found []*ssa.Function
+	if g != nil {
+		for _, f := range m.Src {
+			if pkgPathOf(f) != modPath+"/internal/monitor" || f.Parent() != nil || m.FuncIsPosctl(f) || isPkgInit(f) {
+				continue
+			}
+			hit := false
+			eachInstr(f, func(in ssa.Instruction) {
+				st, ok := in.(*ssa.Store)
+				if !ok || st.Addr != ssa.Value(g) {
+					return
+				}
+				c, isConst := st.Val.(*ssa.Const)
+				isNil := isConst && c.Value == nil
+				if isNil == wantNil {
+					if wantNil {
+						hit = true
+					} else if len(f.Params) >= 1 {
+						hit = true
+					}
+				}
+			})
+			if hit {
+				found = append(found, f)
+			}
+		}
+	}
+	if len(found) == 1 {
+		return found[0]
+	}
+	return m.SSAFunc("internal/monitor", fallback)
+}
+
+// anchorReverse: the method of internal/graph's Edge that stores Edge.From, Edge.To and Edge.IsReversed directly.
+func (m *Model) anchorReverse() *ssa.Function {
+	m.fxInit()
+	var found []*ssa.Function
+	for _, f := range m.Src {
+		if shortPkg(pkgPathOf(f)) != "internal/graph" || f.Parent() != nil || m.FuncIsPosctl(f) || f.Signature.Recv() == nil {
+			continue
+		}
+		w := map[string]bool{}
+		for _, x := range m.effects[f].Writes {
+			if x.Via == "" && !x.Fresh {
+				w[x.Loc] = true
+			}
+		}
+		if w[igEdge+".From"] && w[igEdge+".To"] && w[igEdge+".IsReversed"] {
+			found = append(found, f)
+		}
+	}
+	if len(found) == 1 {
+		return found[0]
+	}
+	return m.SSAFunc("internal/graph", "(*Edge).Reverse")
+}
+
+// anchorNewEdge: the constructor of internal/graph that returns a fresh *Edge (stores From, To of an object it allocates).
+func (m *Model) anchorNewEdge() *ssa.Function {
+	m.fxInit()
+	var found []*ssa.Function
+	for _, f := range m.Src {
+		if shortPkg(pkgPathOf(f)) != "internal/graph" || f.Parent() != nil || m.FuncIsPosctl(f) || f.Signature.Recv() != nil {
+			continue
+		}
+		res := f.Signature.Results()
+		if res.Len() != 1 || namedKey(res.At(0).Type()) != igEdge {
+			continue
+		}
+		fresh := map[string]bool{}
+		for _, x := range m.effects[f].Writes {
+			if x.Via == "" && x.Fresh {
+				fresh[x.Loc] = true
+			}
+		}
+		if fresh[igEdge+".From"] && fresh[igEdge+".To"] {
+			found = append(found, f)
+		}
+	}
+	if len(found) == 1 {
+		return found[0]
+	}
+	return m.SSAFunc("internal/graph", "NewEdge")
+}
+
+// anchorFitter: the recursive function of internal/geom that returns the list of control polygons (FitSpline).
+func (m *Model) anchorFitter() *ssa.Function {
+	var found []*ssa.Function
+	for _, f := range m.Src {
+		if shortPkg(pkgPathOf(f)) != "internal/geom" || f.Parent() != nil || m.FuncIsPosctl(f) || f.Signature.Results().Len() != 1 {
+			continue
+		}
+		sl, ok := f.Signature.Results().At(0).Type().Underlying().(*types.Slice)
+		if !ok || namedKey(sl.Elem()) != "internal/geom.ctrlp" {
+			continue
+		}
+		if len(staticCalls(f, func(c *ssa.Function) bool { return c == f })) > 0 {
+			found = append(found, f)
+		}
+	}
+	if len(found) == 1 {
+		return found[0]
+	}
+	return m.SSAFunc("internal/geom", "FitSpline")
+}
